@@ -529,6 +529,36 @@ M("C06", "ps2-stale-sites", MPS, "                qnbigl, qnbigr, _ = mps._get_b
   ["fresh-labels", "_evolve_tdvp_ps2"], "two-site projector splitting computes the block labels for other sites than it updates")
 M("C17", "ps2-no-operator-swap", MPS, "                mps._update_mps(mps_t, [cidx0, cidx1], qnbigl, qnbigr)\n                if mps.compress_config.ofs is not None:\n                    mpo.try_swap_site(mps.model, mps.compress_config.ofs_swap_jw)",
   "                mps._update_mps(mps_t, [cidx0, cidx1], qnbigl, qnbigr)", ["ofs-pair", "_evolve_tdvp_ps2"], "two-site time evolution swaps sites of the state but not of the operator")
+# ------------------------------------------------------------------------------------------------ twin wave 7: the one-site decompositions reproduce the coefficient table (abstract runs on exact data)
+_SYMD = "renormalizer/mps/symbolic_mpo.py"
+M("C01", "graph-cover-sides-swapped", _SYMD, "        colbool, rowbool = bipartite_vertex_cover(bigraph, algo=algo)", "        rowbool, colbool = bipartite_vertex_cover(bigraph, algo=algo)", ["decomposition-exact"],
+  "cover of the column-side graph read as (rows, columns)")
+M("C01", "graph-row-factor-off-by-one", _SYMD, "        new_factor.append(factor[non_red[row_idx, col_link].toarray() - 1])", "        new_factor.append(factor[non_red[row_idx, col_link].toarray() - 2])", ["decomposition-exact"],
+  "coefficient of the neighbouring term")
+M("C01", "graph-complementary-factor-dropped", _SYMD, "            out_op = OpTuple(symbol, qn, factor=factor[non_red_one_col[i] - 1])", "            out_op = OpTuple(symbol, qn, factor=1.0)", ["decomposition-exact"],
+  "complementary operators lose their coefficients")
+M("C01", "graph-covered-rows-not-cleared", _SYMD, "        non_red.data[non_red.indptr[row_idx]:non_red.indptr[row_idx + 1]] = 0\n", "", ["decomposition-exact"],
+  "entries covered by a row and a column are counted twice")
+M("C01", "qr-permutation-not-inverted", _SYMD, "    r2 = r[:rank, np.argsort(p)]", "    r2 = r[:rank, p]", ["decomposition-exact"], "columns of R put back with the permutation instead of its inverse")
+M("C01", "qr-q-threshold-relative-to-r", _SYMD, "    for i, j in zip(*np.where(np.abs(q[:, :rank]) > atol)):", "    for i, j in zip(*np.where(np.abs(q[:, :rank]) > np.abs(r[0][0]) * 0.05)):", ["decomposition-exact"],
+  "entries of Q dropped by a threshold scaled with R")
+M("C01", "qr-table-uses-pivoted-columns", _SYMD, "    new_table = np.concatenate([idx1.reshape(-1, 1), [term_col[i] for i in idx2]], axis=1)", "    new_table = np.concatenate([idx1.reshape(-1, 1), [term_col[p[i]] for i in idx2]], axis=1)", ["decomposition-exact"],
+  "right operators permuted twice")
+T("C01", "twin-qr-fancy-pair", _SYMD, "    new_factor = r2[(idx1, idx2)]", "    new_factor = r2[idx1, idx2]", "same element-wise selection")
+T("C01", "twin-graph-mask-select", _SYMD, "        for i in nonzero_row_idx[np.nonzero(nonzero_col_idx == col_idx)[0]]:", "        for i in nonzero_row_idx[nonzero_col_idx == col_idx]:", "boolean mask instead of nonzero positions")
+M("C02", "graph-prefers-rows-on-square", _SYMD, "    if non_red.shape[0] < non_red.shape[1]:", "    if non_red.shape[0] <= non_red.shape[1]:", ["terminal-cover"],
+  "a 1 x 1 table is handed over from the row side: Koenig's construction then covers it by the row")
+# ------------------------------------------------------------------------------------------------ twin wave 7: centre and charge bookkeeping of the chain products (abstract run)
+_MPDMF, _MPOF = "renormalizer/mps/mpdm.py", "renormalizer/mps/mpo.py"
+for _p in ("C03", "C06"):
+    M(_p, f"mpdm-apply-real-labels-{_p}", _MPDMF, "        qn = mp.dummy_qn\n", "        qn = mp.qn\n", ["qn-align"],
+      "MpDm.apply combines its labels with the operator's labels without bringing them to one centre and without adding the operator's charge")
+    M(_p, f"mpo-apply-charge-twice-{_p}", _MPOF, "        new_mps.qntot += self.qntot\n", "        new_mps.qntot += self.qntot\n        new_mps.qntot += self.qntot\n", ["qn-charge"],
+      "operator's total charge added twice")
+    M(_p, f"mpo-apply-labels-before-move-{_p}", _MPOF, "        orig_idx = new_mps.qnidx\n        new_mps.move_qnidx(self.qnidx)\n        new_mps.qn = [", "        orig_idx = new_mps.qnidx\n        new_mps.qn = [", ["qn-align"],
+      "labels combined before the operand is moved to the operator's centre", more=[{"file": _MPOF, "old": "        new_mps.qntot += self.qntot\n        new_mps.move_qnidx(orig_idx)", "new": "        new_mps.qntot += self.qntot\n        new_mps.move_qnidx(self.qnidx)\n        new_mps.move_qnidx(orig_idx)"}])
+    T(_p, f"twin-mpdm-apply-inline-dummy-{_p}", _MPDMF, "        qn = mp.dummy_qn\n        new_mpdm.qn = [\n            add_outer(np.array(qn_o), np.array(qn_m)).reshape(-1, qn_o.shape[1])\n            for qn_o, qn_m in zip(self.qn, qn)",
+      "        new_mpdm.qn = [\n            add_outer(np.array(qn_o), np.array(qn_m)).reshape(-1, qn_o.shape[1])\n            for qn_o, qn_m in zip(self.qn, mp.dummy_qn)", "temporary inlined")
 M("C06", "canonicalise-switch-always", "renormalizer/mps/mp.py", "        if (not self.to_right and idx == 1) or (self.to_right and idx == self.site_num - 2):\n            self._switch_direction()", "        self._switch_direction()", ["sweep-centre"],
   "direction switched after partial sweeps too")
 M("C02", "graph-cover-le", "renormalizer/mps/symbolic_mpo.py", "    if non_red.shape[0] < non_red.shape[1]:\n        for i in range(non_red.shape[0]):", "    if non_red.shape[0] <= non_red.shape[1]:\n        for i in range(non_red.shape[0]):", ["terminal-cover"],
@@ -564,7 +594,7 @@ M("C13", "scale-in-place-buffer", _MPF, "        new_mp[self.qnidx] = new_mp[sel
 
 _FIX_EXPECT = {1: ("C03", ["qn-align"]), 2: ("C03", ["qn-charge"]), 3: ("C10", ["evolve"]), 4: ("C13", ["effect-bound", "TTNS.evolve"]), 5: ("C13", ["compressed_sum"]),
                6: ("C15", ["array-truth"]), 7: ("C16", ["sho-product"]), 8: ("C16", ["copy-forward"]), 9: ("C14", ["crash-points"]), 10: ("C09", ["krylov-hermitian"]),
-               11: ("C08", ["heff-network"]), 12: ("C09", ["adaptive-reject"]), 13: ("C17", ["jw-vocabulary"]), 14: ("C10", ["imag-reentry"]), 15: ("C10", ["thermal-hamiltonian"]), 16: ("C09", ["entry-gauge"]), 17: ("C07", ["rdm-network"]), 18: ("C17", ["out-ops-shape"]), 19: ("C16", ["factor-applied"])}
+               11: ("C08", ["heff-network"]), 12: ("C09", ["adaptive-reject"]), 13: ("C17", ["jw-vocabulary"]), 14: ("C10", ["midpoint-reentry"]), 15: ("C10", ["thermal-hamiltonian"]), 16: ("C09", ["entry-gauge"]), 17: ("C07", ["rdm-network"]), 18: ("C17", ["out-ops-shape"]), 19: ("C16", ["factor-applied"])}
 for _f in sorted(_os.listdir(_os.path.join(_V, "renostat", "selftest_patches"))):
     if _f.startswith("fix-"):
         _n = int(_f.split("-")[1])
